@@ -888,5 +888,7 @@ _cleanup:
     free(fileNamesBuf);
     LZ4IO_freePreferences(prefs);
     free((void*)inFileNames);
+    /* the exit status only keeps 8 bits : a failure count multiple of 256 must not read as success */
+    if (operationResult > 255) operationResult = 255;
     return operationResult;
 }
